@@ -915,6 +915,7 @@ def builder_obligations(run, prog, tier, only=None):
         fname = z3.String("newfn.name")
 
         def body(ex, world=world, fname=fname):
+            realistic_name(ex, fname)
             ufs_cell = Cell(world.ruleset_cell.v.fields[1], name="user-functions")
             world.ufs_cell = ufs_cell
             return ex.call(None, "function::UserFunctions::add_boxed_function", [Ref(ufs_cell, (), True), std.mkbox(Obj("userfn", fname), "new-function")])
@@ -2112,6 +2113,61 @@ def serializer_obligations(run, prog, tier, only=None):
             cases.append(Case("all-serialize", z3.And(prev) if prev else z3.BoolVal(True), None, good))
             d = check_paths(run, prog, world, oid, body, cases, "serializer-collector", meta={"container": kname, "elements": n})
             out.append((d, {"kind": kname, "n": n, "shape": shape}))
+    # ---- a map / struct that emits the same key twice: the later entry wins (as in serde_json's image)
+    for kname in ("map", "struct"):
+        oid = f"serialize_{kname}_repeated_key"
+        if only and only not in oid:
+            continue
+        ctor, ctor_args, cty, ctrait, meth, shape = kinds[kname]
+
+        def body(ex, ctor=ctor, ctor_args=ctor_args, cty=cty, ctrait=ctrait, meth=meth, shape=shape):
+            c = unwrap(ex.call(None, f"<{VS} as serde::Serializer>::{ctor}", [Agg("ValueSerializer")] + ctor_args()))
+            cref = Ref(c, (), True)
+            for i in range(2):
+                el = Ref(Cell(Obj("elem", i), ro=True, name=f"elem{i}"))
+                if shape == "map":
+                    r = ex.call(None, f"<{cty} as {ctrait}>::serialize_key::<OracleK>", [cref, Ref(Cell(Obj("key", 0), ro=True, name="key0"))])
+                    if r.variant == "Err":
+                        return r
+                    r = ex.call(None, f"<{cty} as {ctrait}>::serialize_value::<OracleT>", [cref, el])
+                else:
+                    r = ex.call(None, f"<{cty} as {ctrait}>::{meth}::<OracleT>", [cref, Str(ktx(0)), el])
+                if r.variant == "Err":
+                    return r
+            return ex.call(None, f"<{cty} as {ctrait}>::end", [c.v])
+
+        def last_wins(ex, r):
+            if isinstance(r, Agg) and r.ty == "Result" and r.variant == "Ok":
+                v = r.fields[0]
+                if isinstance(v, Agg) and v.ty == "Value" and v.variant == "Map" and isinstance(v.fields[0], MapV):
+                    try:
+                        mid = ex.map_id(v.fields[0])
+                    except Unsupported:
+                        return False
+                    return z3.And(map_has(mid, ktx(0)), map_at(mid, ktx(0)) == val(1))
+            return False
+        g = z3.And(okb(0), okb(1)) if shape != "map" else z3.And(kok(0), okb(0), okb(1))
+        cases = [Case("later-entry-wins", g, None, last_wins), Case("some-failure", z3.Not(g), None, lambda ex, r: isinstance(r, Agg) and r.ty == "Result" and r.variant == "Err")]
+        d = check_paths(run, prog, world, oid, body, cases, "serializer-collector", meta={"container": kname, "elements": 2, "keys": "equal"})
+        out.append((d, {"kind": kname, "n": 2, "shape": "repeated-" + shape}))
+    # ---- provided methods the crate overrides (collect_seq / collect_map): must agree with the element-wise protocol
+    for n in ns:
+        oid = f"collect_seq_{n}"
+        if only and only not in oid:
+            continue
+        callee = f"<{VS} as serde::Serializer>::collect_seq::<std::vec::Vec<OracleT>>"
+        if prog.resolve(callee) is None:
+            continue          # not overridden: serde's default is serialize_seq + serialize_element* + end, decided above
+
+        def body(ex, callee=callee, n=n):
+            return ex.call(None, callee, [Agg("ValueSerializer"), VecV([Obj("elem", i) for i in range(n)])])
+        cases, prev = [], []
+        for i in range(n):
+            cases.append(Case(f"element{i}-fails", z3.And(prev + [z3.Not(okb(i))]), None, err_opq(er(i))))
+            prev = prev + [okb(i)]
+        cases.append(Case("all-serialize", z3.And(prev) if prev else z3.BoolVal(True), None, ok_vec([val(i) for i in range(n)])))
+        d = check_paths(run, prog, world, oid, body, cases, "serializer-collector", meta={"container": "collect_seq", "elements": n})
+        out.append((d, {"kind": "collect_seq", "n": n, "shape": "list"}))
     return out
 
 
@@ -2121,7 +2177,11 @@ def serializer_scenario(info, cex):
     n = info["n"]
     els = [{"ok": i + 1} if C.boolean(z3.Bool(f"el{i}.ok")) else {"err": True} for i in range(n)]
     keys_ok = [C.boolean(z3.Bool(f"key{i}.ok")) for i in range(n)] if info["shape"] == "map" else [True] * n
-    req = {"kind": info["kind"], "elems": els, "keys_ok": keys_ok}
+    req = {"kind": info["kind"], "elems": els, "keys_ok": keys_ok, "repeat_key": info["shape"].startswith("repeated-")}
+    if info["shape"].startswith("repeated-"):
+        ok_all = all("ok" in e for e in els) and all(keys_ok[:1] if info["shape"].endswith("map") else [True])
+        exp = {"ok": {"t": "Map", "v": [["a", {"t": "Int", "v": "2"}]]}} if ok_all else {"err": "key" if (info["shape"].endswith("map") and not keys_ok[0]) else "element"}
+        return req, exp
     # expectation under the model
     exp = None
     for i in range(n):
@@ -2175,6 +2235,16 @@ def finish_serializer(run, helper, res, mandatory=True):
             run.inconc(d["id"], d.get("reason", "no verdict"), mandatory=mandatory)
 
 
+def realistic_name(ex, n):
+    """Bound on the symbolic function names that keeps the two (uninterpreted) name predicates consistent with the real ones, so that every
+    model can be replayed: a name is fn[a-z]* (well-formed, not reserved), or `if` (reserved), or `1x` (ill-formed)."""
+    good = z3.InRe(n, z3.Concat(z3.Re("fn"), z3.Star(z3.Range("a", "z"))))
+    ex.assume(z3.Or(z3.And(good, is_ident(n), z3.Not(is_reserved(n))),
+                    z3.And(n == z3.StringVal("if"), is_reserved(n)),
+                    z3.And(n == z3.StringVal("1x"), z3.Not(is_ident(n)), z3.Not(is_reserved(n)))))
+    ex.assume(z3.Implies(fn_registered(n), good))
+
+
 def function_batch_obligations(run, prog, tier, only=None):
     """Builder::with_function and with_functions (batches of 2) from an arbitrary registry."""
     out = []
@@ -2186,6 +2256,8 @@ def function_batch_obligations(run, prog, tier, only=None):
         names = [z3.String(f"newfn{i}.name") for i in range(m)]
 
         def body(ex, world=world, names=names, m=m):
+            for nm in names:
+                realistic_name(ex, nm)
             if m == 1:
                 r = ex.call(None, "ruleset::builder::Builder::with_function::<OracleFn>", [world.builder, Obj("userfn", names[0])])
             else:
